@@ -426,7 +426,8 @@ def cmd_check(prop, tier, seed, only=None, jobs=None):
         },
         "assumptions": list(entry.get("assumptions", [])) + registry.GLOBAL_ASSUMPTIONS,
     }
-    evdir = os.environ.get("DVERIF_EVIDENCE_DIR") or os.path.join(ROOT, "evidence")
+    # a run restricted with --only (a development aid) covers a subset: its evidence must never replace the property's record
+    evdir = os.environ.get("DVERIF_EVIDENCE_DIR") or os.path.join(ROOT, "evidence", "partial" if only else "")
     os.makedirs(evdir, exist_ok=True)
     with open(os.path.join(evdir, "%s.json" % prop), "w") as f:
         json.dump(ev, f, indent=1, default=str)
